@@ -100,7 +100,11 @@ class KeplerNum(NumericalPropagator):
 
     def copy(self):
         return self.__class__(
-            self.step, self.bodies, method=self.method, frame=self.frame
+            self.step,
+            self.bodies,
+            method=self.method,
+            frame=self.frame,
+            tol=self.tol,
         )
 
     @property
